@@ -414,6 +414,74 @@ def pointwise_props(ctx, rounds):
             ctx.violation(f"tw with weight one differs from {name}", {"fcst": pts[i][0], "obs": pts[i][1], "alpha": alpha}, float(b1.values[i]), float(a1.values[i]))
 
 
+def weight_fn(ends):
+    """the threshold weight of the docstrings: 1 on [b, c), linear ramps on [a, b] and [c, d] (trapezoid), 0 elsewhere"""
+    if len(ends) == 2:
+        b, c = ends
+        return lambda t: Fr(1) if b <= t < c else Fr(0)
+    a, b, c, d = ends
+
+    def w(t):
+        if t < a or t >= d:
+            return Fr(0)
+        if t < b:
+            return (t - a) / (b - a)
+        if t < c:
+            return Fr(1)
+        return (d - t) / (d - c)
+    return w
+
+
+def integral_props(ctx, rounds):
+    """the property itself on the implementation: tw_* == integral over theta of weight(theta) x murphy_score(theta), evaluated exactly
+    (between consecutive kinks the integrand is a polynomial of degree <= 3 in theta: open 3-point Newton-Cotes (Milne) is exact)"""
+    rng = ctx.rng
+    C = S()
+    for _ in range(rounds):
+        if not ctx.time_left():
+            break
+        f = Fr(rng.randint(-8, 8), 2)
+        o = f if rng.random() < 0.15 else Fr(rng.randint(-8, 8), 2)
+        alpha, hub = rng.choice(ALPHAS), rng.choice(HUBERS)
+        b = Fr(rng.randint(-8, 6), 2)
+        c = b + Fr(rng.randint(1, 8), 2)
+        trap = rng.random() < 0.5
+        ends = (b - Fr(rng.randint(1, 4), 2), b, c, c + Fr(rng.randint(1, 4), 2)) if trap else (b, c)
+        w = weight_fn(ends)
+        kinks = sorted({f, o, o + hub, o - hub, *ends, min(f, o, ends[0]) - 1, max(f, o, ends[-1]) + 1})
+        nodes, hs = [], []
+        for k0, k1 in zip(kinks, kinks[1:]):
+            h = k1 - k0
+            nodes += [k0 + h / 4, k0 + h / 2, k0 + 3 * h / 4]
+            hs.append(h)
+        F = xr.DataArray([float(f)], dims=["x"])
+        O = xr.DataArray([float(o)], dims=["x"])
+
+        def integral(functional, al):
+            kw = {"huber_a": float(hub)} if functional == "huber" else {}
+            ms = C.murphy_score(F, O, [float(t) for t in nodes], functional=functional, alpha=float(al), preserve_dims="all", **kw)["total"].values.ravel()
+            tot = Fr(0)
+            for j, h in enumerate(hs):
+                g = [w(nodes[3 * j + i]) * Fr(float(ms[3 * j + i])) for i in range(3)]
+                tot += h / 3 * (2 * g[0] - g[1] + 2 * g[2])
+            return tot
+        one = tuple(float(e) for e in (ends[1:3] if trap else ends))
+        pos = (float(ends[0]), float(ends[3])) if trap else None
+        want = {"tw_squared_error": 4 * integral("expectile", Fr(1, 2)), "tw_absolute_error": 2 * integral("quantile", Fr(1, 2)),
+                "tw_quantile_score": integral("quantile", alpha), "tw_expectile_score": 2 * integral("expectile", alpha),
+                "tw_huber_loss": 2 * integral("huber", Fr(1, 2))}
+        for fn in FNS:
+            p = {"tw_quantile_score": alpha, "tw_expectile_score": alpha, "tw_huber_loss": hub}.get(fn)
+            st, v = call_tw(fn, F, O, p, one, pos, pd="all")
+            ctx.case(("integral", fn, f, o, ends, p))
+            if st != "ok" or not core.close(float(v.values.ravel()[0]), want[fn]):
+                ctx.violation("tw_* differs from the integral over theta of weight x murphy_score",
+                              {"fn": fn, "fcst": f, "obs": o, "param": p, "interval_where_one": one, "interval_where_positive": pos},
+                              want[fn], float(v.values.ravel()[0]) if st == "ok" else v)
+        ctx.count("integral_rounds")
+
+
+
 def guard_probes(ctx):
     """documented boundaries of the parameters and end points: just inside must be accepted, on / outside must raise ValueError"""
     C = S()
@@ -551,6 +619,7 @@ def run(ctx):
     coord_order_finding(ctx)
     guard_probes(ctx)
     replacement_props(ctx, ctx.n(6, 80))
+    integral_props(ctx, ctx.n(25, 400))
     # ---- public functions vs model, structured random cases ----
     for i in range(ctx.n(260, 4000)):
         if not ctx.time_left():
